@@ -7,7 +7,7 @@ EXTENDS QuerySem, Json, IOUtils
 In == JsonDeserialize(IOEnv.IN)
 
 Got(it) == [kind |-> it.kind, rows |-> it.rows, keys |-> <<>>]
-Explains(it, d) == \E coll \in {"unknown", "ignored"} :
+Explains(it, d) == \E coll \in {"ignored"} :
                       SameResult(RunQuery(it.q, Cx(DataSets[it.ds], coll, {d})), Got(it))
 Verdict(it) == IF ~WellTyped(it.q) THEN <<>>
                ELSE SelectSeq(In.devs, LAMBDA d : Explains(it, d))
